@@ -79,6 +79,28 @@ Definition compact_dofs (ntree : Z) (tree_dofadr tree_dofnum tree_awake : list Z
   then mkR nvmax (dc s) (cd s) (Z.lor ovf NVMAX) (count s)
   else mkR (count s) (dc s) (cd s) ovf (count s).
 
+(* ---- the same with the previous content of the maps made explicit (the maps live on Data and are
+   reused from step to step).  _reset_compact_maps over dim (nworld, dim), task idx:
+     if idx < nv: dof_cdof_out[worldid, idx] = -1
+     if idx < nvmax_pad_in: cdof_dof_out[worldid, idx] = -1
+   update_active_dofs launches it with dim = max(m.nv, d.nvmax_pad): dof_cdof is nv wide, cdof_dof
+   nvmax_pad wide, and nv may exceed nvmax_pad when a capacity nvmax < nv was requested. *)
+Definition reset_maps (dim nv nvp : Z) (dc0 cd0 : list Z) : list Z * list Z :=
+  fold_left (fun s idx => (if idx <? nv then cset (fst s) idx (-1) else fst s,
+                           if idx <? nvp then cset (snd s) idx (-1) else snd s)) (zseq dim) (dc0, cd0).
+Definition reset_dim (nv nvp : Z) : Z := Z.max nv nvp.
+
+Definition compact_dofs_from (ntree : Z) (tree_dofadr tree_dofnum tree_awake : list Z) (nvmax ovf : Z) (dc0 cd0 : list Z) : cresult :=
+  let s := fold_left (tree_step nvmax tree_dofadr tree_dofnum tree_awake) (zseq ntree) (mkC 0 dc0 cd0) in
+  if count s >? nvmax
+  then mkR nvmax (dc s) (cd s) (Z.lor ovf NVMAX) (count s)
+  else mkR (count s) (dc s) (cd s) ovf (count s).
+
+(* island.update_active_dofs on maps holding dc0 / cd0 from the previous call, reset launched over [dim] *)
+Definition update_active_dofs (dim ntree : Z) (tree_dofadr tree_dofnum tree_awake : list Z) (nvmax nv nvp ovf : Z) (dc0 cd0 : list Z) : cresult :=
+  let r := reset_maps dim nv nvp dc0 cd0 in
+  compact_dofs_from ntree tree_dofadr tree_dofnum tree_awake nvmax ovf (fst r) (snd r).
+
 (* the dofs visited by the two loops, in order: the dofs of the awake trees *)
 Definition tree_block (tree_dofadr tree_dofnum tree_awake : list Z) (t : Z) : list Z :=
   if cget tree_awake t =? 1 then map (fun j => cget tree_dofadr t + j) (zseq (cget tree_dofnum t)) else [].
